@@ -201,6 +201,10 @@ def set_elements():
         st.floats(allow_nan=False, allow_infinity=False).map(lambda v: {"t": "float", "v": v}),
         st.text(alphabet="abc xyz", max_size=4).map(lambda v: {"t": "str", "v": v}),
         st.just({"t": "none"}),
+        # hashable value kinds that are not JSON attributes: stored element by element as arrays (dill fallback) / path
+        # strings and read back through the array branch of the set decoder (first-order mutant C01:382)
+        st.builds(lambda a, b: {"t": "complex", "v": [a, b]}, st.floats(-9, 9), st.floats(-9, 9)),
+        paths(),
     )
     tup = st.lists(st.one_of(st.integers(-9, 9).map(lambda v: {"t": "int", "v": v}), st.text(alphabet="ab", max_size=2).map(lambda v: {"t": "str", "v": v})), min_size=0, max_size=3).map(
         lambda items: {"t": "tuple", "items": items}
